@@ -519,6 +519,9 @@ class World:
         else:
             ds2 = Datastore(SqliteStorage, testing=True, filepath=os.path.join(self.rundir, "other-%d.sqlite" % self.nother), enable_lazy_commit=self.backend == "sqlite")
         listing = dict(ds2.buckets())
+        # a few other buckets first, so that the shared id does not sit at the same row in both stores
+        for k in range(self.nother % 3 + 1):
+            self._call(ds2.create_bucket, "zz-pad-%d" % k, type="other", client="other", hostname="other", created=us_to_dt(1_600_000_000_000_000), name="pad")
         out = self._call(ds2.create_bucket, s["b"], type="other", client="other", hostname="other", created=us_to_dt(1_600_000_000_000_000), name="other store")
         if out["exc"] is None:
             self._call(out["ret"].insert, mk_event(s["ev"]))
